@@ -135,7 +135,7 @@ class Rig(object):
                 s.enqueueSent(node)
 
 
-def make_profile(scratch, name="c06rig"):
+def make_profile(scratch, n=0):
     """one profile (and so one AxolotlManager / sqlite store) shared by all rigs of a run"""
     from yowsup.profile.profile import YowProfile
     from yowsup.config.v1.config import Config
@@ -143,7 +143,7 @@ def make_profile(scratch, name="c06rig"):
     from yowsup.axolotl.manager import AxolotlManager
     AxolotlManager.COUNT_GEN_PREKEYS = 3
     from yowsup.common.tools import StorageTools
-    phone = "4915200000001"
+    phone = "49152%08d" % n          # a fresh store per n keeps the prekey tables small
     cfg = Config(phone=phone, client_static_keypair=WATools.generateKeyPair())
     prof = YowProfile(phone, cfg)
     d = StorageTools.getStorageForProfile(phone)
